@@ -254,6 +254,7 @@ func init() {
 
 	// ---------- sync ----------
 	reg("(*sync.Mutex).Lock", func(m *Machine, fr *frame, a []Value) Value {
+		m.syncPoint()
 		s := m.mutexOf(a[0].(*Value))
 		if s.locked {
 			m.block(func() bool { return !s.locked }, "Mutex.Lock")
@@ -278,6 +279,7 @@ func init() {
 		return nil
 	})
 	reg("(*sync.RWMutex).Lock", func(m *Machine, fr *frame, a []Value) Value {
+		m.syncPoint()
 		s := m.mutexOf(a[0].(*Value))
 		if s.locked || s.readers > 0 {
 			m.block(func() bool { return !s.locked && s.readers == 0 }, "RWMutex.Lock")
@@ -294,6 +296,7 @@ func init() {
 		return nil
 	})
 	reg("(*sync.RWMutex).RLock", func(m *Machine, fr *frame, a []Value) Value {
+		m.syncPoint()
 		s := m.mutexOf(a[0].(*Value))
 		if s.locked {
 			m.block(func() bool { return !s.locked }, "RWMutex.RLock")
